@@ -108,7 +108,7 @@ CHECKS["C01"] = dict(
    note=TB + "; mesh contract (C20) as hypothesis; flux contract clauses proved in C02/C16; floating-point intermediates "
         "assumed finite (no safety obligations here: unlimited reconstructions may give inadmissible face states); 2-D: the "
         "double telescoping sum over rows and columns is the sum-induction lemma applied twice (schema trusted, premises "
-        "discharged). The check also discharges the wall clause of the flux contract for every flux (uses:C16/wall/*).",
+        "discharged). The check also discharges the wall clause of the flux contract for every flux (uses:C16/wall/*), the mesh contract (uses:C20/*) and the integrator half of the statement (uses:C05/*: normal forms of the explicit integrators; uses:C06/size(n=2,neq=1|2)/*, fd-step*: implicit family).",
    ref="§6 C01")
 
 CHECKS["C15"] = dict(
@@ -159,7 +159,7 @@ CHECKS["C03"] = dict(
         "full product); nozzle at rest for an abstract section law. 2-D (fvm2dcart, euler2d, extrapol2d1 / extrapol2dk with symbolic kappa, symbolic nx, ny, lx, ly, generic cell): the residual of a uniform state vanishes with periodic closure at any flow angle and with matched insub/outsub, outsub/insub, insup/outsup and wall closures for a flow along the inlet normal (inlet/outlet conditions through the derived contract 'matched 2-D condition with the velocity along its normal returns the state' = C15 leaf bc/*/one-dimensional composed with the 1-D fixed-point leaf; walls, periodic copies, gradients, reconstruction and flux assembly are the real code). Integrators: R(Q*)=0 => step(Q*)=Q* follows from the "
         "normal forms of C05 (explicit) and the linear systems of C06 (implicit).",
    note=TB + "; flux consistency from C02, mesh contract from C20, power laws as lemma instances; 2-D operator pending the "
-        "2-D machinery. The check also discharges the flux consistency clause it instantiates (uses:C02/*/consistency).",
+        "2-D machinery. The check also discharges the flux consistency clause it instantiates (uses:C02/*/consistency), the 2-D/1-D boundary-condition clause (uses:C15/bc/*/one-dimensional), the mesh contract (uses:C20/*) and the integrator half of the statement (uses:C05/*, uses:C06/size(n=2,neq=1|2)/*, fd-step*).",
    ref="§6 C03")
 CHECKS["C05"] = dict(
    technique="contract-based deductive verification: step() of every explicit integrator class executed symbolically against "
